@@ -65,8 +65,8 @@ theorem C14_exact (s : State) (r : Resv) (f : Flight) (size : Nat) (h : String) 
 theorem C14_outcomes (s : State) (r : Resv) (f : Flight) (size : Nat) (h : String) (hs : CanRespond s r f) :
     let s' := rtResponse s (some r.k) size h false
     s'.queue = s.queue ∧ s'.rt = some .responseSent ∧
-    (size ≤ maxPayload → s'.out = s.out ++ ["rt.response=202"]) ∧
-    (size > maxPayload → s'.out = s.out ++ ["rt.response=413,RequestEntityTooLarge"]) := by
+    (size ≤ maxPayload → s'.out = s.out ++ [.line "rt.response=202"]) ∧
+    (size > maxPayload → s'.out = s.out ++ [.line "rt.response=413,RequestEntityTooLarge"]) := by
   simp only [C14_exact s r f size h hs]
   split
   · rename_i hle; refine ⟨rfl, rfl, fun _ => rfl, fun hgt => absurd hle (by omega)⟩
@@ -76,8 +76,8 @@ theorem C14_outcomes (s : State) (r : Resv) (f : Flight) (size : Nat) (h : Strin
 -- and the two sides of the limit behave as stated
 example :
     let s := step 0 (step 0 {} (.invoke 0 5 "h")) .rtNext
-    s.rt = some .running ∧ (step 0 s (.rtResponse (some 1) maxPayload "x" false)).out = ["rt.response=202"] ∧
-      (step 0 s (.rtResponse (some 1) (maxPayload + 1) "x" false)).out = ["rt.response=413,RequestEntityTooLarge"] := by
+    s.rt = some .running ∧ (step 0 s (.rtResponse (some 1) maxPayload "x" false)).outs = ["rt.response=202"] ∧
+      (step 0 s (.rtResponse (some 1) (maxPayload + 1) "x" false)).outs = ["rt.response=413,RequestEntityTooLarge"] := by
   decide
 
 end Rie.Props.C14
